@@ -99,6 +99,19 @@ func openQ4(path string, hdr *headerV0) (*q4, error) {
 		return nil, err
 	}
 
+	// a Q4 file that was only partially written (e.g. the process died while writing it) must not
+	// be served; the caller falls back to computing parity data from the ODS
+	info, err := f.Stat()
+	if err != nil {
+		f.Close()
+		return nil, fmt.Errorf("getting Q4 file info: %w", err)
+	}
+	odsSize := hdr.SquareSize() / 2
+	if expected := int64(hdr.ShareSize() * odsSize * odsSize); info.Size() != expected {
+		f.Close()
+		return nil, fmt.Errorf("q4 file size mismatch: expected %d, got %d", expected, info.Size())
+	}
+
 	return &q4{
 		hdr:  hdr,
 		file: f,
